@@ -71,7 +71,7 @@ Proof. exact fragment_good_step. Qed.
    steps with at most len+1 tokens; nothing is assumed about parser, matcher or scan loop *)
 Theorem C06_group_grammar_tokenize_end_to_end :
   forall xpath a fls input,
-    ok_a xpath a = true -> existsb (N.eqb 59) fls = false ->
+    ok_a xpath a = true -> existsb (N.eqb 59) fls = false -> (N.of_nat (length input) < umax)%N ->
     match spec_flags xpath fls with
     | Valid sf =>
         s_q sf = false -> s_x sf = false ->
